@@ -150,6 +150,20 @@ def logViaCatch (lib : Str → Frame) (w : CatchRow) (opts : List Int) (us : Lis
   | .error e => .error e
   | .ok o => logCore (stackAtLog lib w.chain us) o ex
 
+/-! ### `opt()`: the depth the derived logger carries -/
+
+/-- depth option of the logger a return path of `opt(depth=d, …)` yields -/
+def optDepth (fwd : DepthFwd) (d : Int) : Int :=
+  match fwd with
+  | .param => d
+  | .default => Gen.optDepthDefault
+  | .const k => k
+
+/-- `_options` of the logger returned by `opt(depth=d, …)` on a logger whose options are `opts`
+(`opt` rebuilds every slot but the last two from its arguments; only the depth slot is interpreted) -/
+def optOptions (fwd : DepthFwd) (d : Int) (opts : List Int) : List Int :=
+  opts.set Gen.initDepthIndex (optDepth fwd d)
+
 /-! ### a history of calls: when the calling thread / process are looked up -/
 
 /-- the context a lookup policy yields: the call's own, the one of the thread's first logging call
